@@ -306,6 +306,20 @@ def run(ctx, out):
     stats = X.run_family(ctx, out, CFG, oracle, 150, 2500, structured=default_call_cases() + X.copy_cases() + extra)
     name_resolution(out, stats)
     out.coverage["input_distribution"]["name_resolution_scenarios"] = stats["name_resolution_scenarios"]
+    # which function the cache is a cache OF: formula shapes at Python level, handed over in every way
+    from .. import formula_shapes
+    kinds = formula_shapes.run(ctx, out, stats, 20, 600)
+    out.coverage["formula_shapes"] = {
+        "kinds": kinds, "histories": stats["shape_histories"],
+        "ways": {w: stats["shape_way_" + w] for w in formula_shapes.WAYS},
+        "rule": "programs of 3-5 cells (def and lambda formulas whose text contains inner lambdas, nested defs / "
+                "classes, comprehensions, conditional expressions, decorators, defaults, keywords inside strings and "
+                "comments), every kind forced once, handed over as source text / function objects of a module file / "
+                "defcells / set_formula / UserSpace.copy / Cells.copy, two request orders; reference = the same text "
+                "compiled by Python over a plain dict"}
+    for k in list(stats):
+        if k.startswith("shape_"):
+            out.coverage["input_distribution"][k] = stats[k]
     out.assumptions.append("Python's own evaluation of arithmetic and inspect.Signature.bind are exercised, not modelled")
 
 
@@ -314,5 +328,9 @@ def replay(ctx, payload, out):
     h = payload.get("history") or {}
     if isinstance(h, dict) and h.get("scenario") == "name_resolution":
         name_resolution(out, collections.Counter())
+        return
+    if isinstance(h, dict) and h.get("scenario") == "formula_shapes":
+        from .. import formula_shapes
+        formula_shapes.replay(h, out)
         return
     X.replay_family(ctx, payload, out, CFG, oracle)
